@@ -129,6 +129,12 @@ def run(ctx):
             ctx.ob("R11.inv", "%s.%s (request logging flag)" % key, True,
                    "%s:%d" % (mod.path, node.lineno), "configuration, set once at start-up")
             continue
+        if key in e4mod.get(ctx.model).bookkeeping:
+            ctx.ob("R11.inv", "%s.%s is holder bookkeeping" % key, True,
+                   "%s:%d" % (mod.path, node.lineno), "written by the retention site and "
+                   "undone on disconnect (rule U(a)): zero whenever no connection exists, "
+                   "in the kept and in the rebuilt server alike")
+            continue
         # is it read anywhere other than in logging?
         reads = []
         for m2 in MODS:
